@@ -420,4 +420,9 @@ def vary_names(decls, every=3, upper=True, raw=True, vis=True, hostile=True):
                 continue
             used.add(nm)
             f["name"] = nm
+        # a hostile constant only matters next to an upper-case field name (datasheet style, `TXEN` next to `const TXEN`):
+        # make sure the renamed declarations that get hostile items have one, on a writable field if there is one
+        if upper and d.get("hostile") and d["fields"] and not any(f["name"].upper() == f["name"] and f["name"].lower() != f["name"] for f in d["fields"]):
+            cand = [f for f in d["fields"] if f["access"] in ("w", "rw")] or d["fields"]
+            cand[-1]["name"] = "TXEN"
     return decls
